@@ -128,6 +128,12 @@ def g_axis(ch: core.Chooser, keepdims: bool = False, tuples: bool = True, min_nd
     axis = ch.choice(options)
     if axis is not None or ch.chance(0.3):
         kwargs["axis"] = axis if axis is not None else {"none": 1}
+    cx = ch.sub("axis-type")
+    if isinstance(axis, int) and cx.chance(0.15):
+        # the axis arrives as a 0-d integer array (what numpy.argmax and friends hand back) or as a numpy integer
+        kwargs["axis"] = A(numpy.array(axis), "int64")
+    elif isinstance(axis, dict) and "tuple" in axis and cx.chance(0.3):
+        kwargs["axis"] = {"seq": list(axis["tuple"])}
     if keepdims and ch.chance(0.4):
         kwargs["keepdims"] = True
     return {"args": [P(a)], "kwargs": kwargs}
